@@ -143,6 +143,21 @@ class Check(PropertyCheck):
                          "timestamp": rng.choice([0, 0xFFFFFFFF]), "payload": [rng.randrange(256) for _ in range(rng.choice([0, 1, 5]))],
                          "hseq": rng.randrange(256)}
                     cases.append({"v": v, "kind": "incoming", "m": m})
+            # ZDO traffic (profile 0, endpoint 0) is delivered like anything else, whatever its cluster and however short its
+            # payload: device announcements, address requests / responses, management requests, with payloads of 0..12 bytes
+            zclusters = (0x0013, 0x0000, 0x0001, 0x0006, 0x8001, 0x0036) if tier == "quick" else \
+                (0x0013, 0x0000, 0x0001, 0x0002, 0x0005, 0x0006, 0x0031, 0x0036, 0x0038, 0x8000, 0x8001, 0x8013, 0x8038)
+            zlens = (0, 1, 3, 10, 11, 12) if tier == "quick" else range(0, 14)
+            for cl in zclusters:
+                for n in zlens:
+                    for ty in (0, 4) if tier == "quick" else (0, 2, 4):
+                        m = {"type": ty, "profile": rng.choice([0, 0, 0x0104]), "cluster": cl, "src_ep": 0, "dst_ep": 0,
+                             "options": rng.randrange(65536), "group": rng.randrange(65536), "seq": rng.randrange(256),
+                             "sender": rng.randrange(65536), "eui64": [rng.randrange(256) for _ in range(8)],
+                             "binding": rng.randrange(256), "address": rng.randrange(256), "lqi": rng.randrange(256),
+                             "rssi": rng.randrange(-128, 128), "timestamp": rng.randrange(1 << 32),
+                             "payload": [rng.randrange(256) for _ in range(n)], "hseq": rng.randrange(256)}
+                        cases.append({"v": v, "kind": "incoming", "m": m})
             # streams on the one running application: consecutive deliverable callbacks that share message type, sender
             # and APS counter (a device with a constant or restarted counter) but differ elsewhere, with ignored types
             # and other senders in between; every one of them must still yield its own packet
